@@ -127,6 +127,16 @@ fn value_ladder(thorough: bool) -> Vec<Mag> {
     v
 }
 
+/// The kind under which a failure is keyed. Running out of time and running out of memory at one position are the same
+/// finding — no magnitude limit is enforced there — and which of the two strikes first depends on how fast the loop
+/// in between happens to be (a behaviour-preserving speed-up of the bit loops turns the one into the other).
+fn key_kind(kind: &'static str) -> &'static str {
+    match kind {
+        "timeout" | "memcap" => "unbounded",
+        k => k,
+    }
+}
+
 fn ladder_of(l: Ladder, thorough: bool) -> Vec<Mag> {
     match l {
         Ladder::Depth => depth_ladder(thorough),
@@ -1068,6 +1078,15 @@ pub fn run(ctx: &Ctx) -> Report {
     let mut non_cycle_sites = 0usize;
     let mut near_limit: Vec<String> = vec![];
     let mut cpu_ge_1: Vec<String> = vec![];
+    let known_mags: BTreeMap<String, Vec<String>> = std::fs::read_to_string(format!("{}/known_findings.json", ctx.verif))
+        .ok()
+        .and_then(|t| serde_json::from_str::<Value>(&t).ok())
+        .and_then(|v| v["findings"].as_array().cloned())
+        .unwrap_or_default()
+        .iter()
+        .filter(|e| e["property"] == "C19" && e["status"] == "known")
+        .filter_map(|e| Some((e["key"].as_str()?.to_string(), e["magnitudes"].as_array()?.iter().filter_map(|x| x.as_str().map(|s| s.to_string())).collect())))
+        .collect();
     for (si, s) in sites.iter().enumerate() {
         let mags = lad(s.ladder);
         // smallest failing magnitude per kind for this site
@@ -1075,8 +1094,8 @@ pub fn run(ctx: &Ctx) -> Report {
         let mut count: BTreeMap<&'static str, u64> = BTreeMap::new();
         for mi in 0..mags.len() {
             if let Some(CaseResult { outcome: Outcome::Bad(k, _), .. }) = results.get(&(si, mi)) {
-                first.entry(*k).or_insert(mi);
-                *count.entry(*k).or_insert(0) += 1;
+                first.entry(key_kind(k)).or_insert(mi);
+                *count.entry(key_kind(k)).or_insert(0) += 1;
             }
         }
         let mut row: Vec<String> = vec![];
@@ -1116,8 +1135,15 @@ pub fn run(ctx: &Ctx) -> Report {
                 Outcome::Diagnosed => l.class("exit1-diagnosed"),
                 Outcome::Bad(kind, detail) => {
                     l.class(&format!("violation-{}", kind));
-                    let m0 = mags[first[kind]].label();
-                    let key = format!("C19:{}:{}", s.name, kind);
+                    let m0 = mags[first[key_kind(kind)]].label();
+                    let mut key = format!("C19:{}:{}", s.name, key_kind(kind));
+                    // a listed finding names the magnitudes at which the site fails on the recorded tree; the same
+                    // site failing at any other magnitude is a different violation (e.g. a limit check that went away)
+                    if let Some(listed) = known_mags.get(&key) {
+                        if !listed.contains(&m.label()) {
+                            key = format!("{}@{}", key, m.label());
+                        }
+                    }
                     l.violation(Violation {
                         property: ID,
                         key,
